@@ -333,6 +333,9 @@ def _equal(a, b, table):
                 return True
             if f.func == CROSS:
                 return all(a_.is_Symbol for a_ in f.args)
+            if f.func == MAXF:
+                # max and sum of one array are independent; maxima of differently scaled copies are not
+                return len({g_.args[0] for g_ in atoms if g_.func == MAXF}) == 1
             return False
 
         if all(indep(f) for f in atoms):
